@@ -110,8 +110,9 @@ def scenarios(ctx):
     rng = ctx.rng
     out = []
 
-    def add(W, reqs, faults=(), slow=0.0, api="play_many", pause=0.0, compress=1):
+    def add(W, reqs, faults=(), slow=0.0, api="play_many", pause=0.0, compress=1, **extra):
         s = {"W": W, "requests": list(reqs), "faults": list(faults)}
+        s.update(extra)
         if pause:
             s["pause"], s["compress"] = pause, compress
         if slow:
@@ -141,6 +142,9 @@ def scenarios(ctx):
         # a long-lived engine left idle between two requests (the trainer trains between rollout
         # batches): 3 s of pause, timed waits of the workers 100x faster = five idle minutes
         add(2, [3, 3], pause=3.0, compress=100)
+        # many games, every transcript kept by the caller, few file descriptors; games cut by the ply limit
+        add(2, [150, 60], nofile=160)
+        add(2, [6, 3], ply_limit=0)
         # a worker killed while it is still starting up (inside its engine factory)
         add(1, [2], ["killinit:0"])
         add(2, [5], ["killinit:1"], slow=0.2)
@@ -181,6 +185,8 @@ def scenarios(ctx):
                         add(W, [rng.choice([1, 2, 5])], ["killinit:%d" % j], slow=rng.choice([0.0, 0.2]), api="play_many_games")
                 add(W, [5], ["game:%d:1" % j for j in js])
                 add(W, [2, 3, 2], pause=rng.choice([2.0, 4.0]), compress=rng.choice([100, 1000]))
+                add(W, [rng.choice([100, 200]), 50], nofile=rng.choice([128, 200]))
+                add(W, [5, 2], ply_limit=rng.choice([0, 1]))
                 add(W, [8, 2], ["killwait:0:1", "game:%d:2" % (W - 1)])
                 # backlogs (N > 2W), early faults, fast and slow survivors; both entry points
                 big = 2 * W + rng.choice([2, 4, 6])
